@@ -188,6 +188,36 @@ func replayHistory(dir string, hist *history, restartAt map[uint64]bool, fromH, 
 		return rr, err
 	}
 	defer func() { r.Close() }()
+	if pipelineWindow > 1 {
+		// blocks go to the executor in windows, without waiting for the previous one to be committed
+		for i := 0; i < len(hist.Blocks); i += pipelineWindow {
+			var win []harness.PipeBlock
+			for j := i; j < i+pipelineWindow && j < len(hist.Blocks); j++ {
+				raw, err := base64.StdEncoding.DecodeString(hist.Blocks[j].Txs)
+				if err != nil {
+					return rr, err
+				}
+				txs := &pb.Transactions{}
+				if len(raw) > 0 {
+					if err := txs.Unmarshal(raw); err != nil {
+						return rr, fmt.Errorf("unmarshal txs of block %d: %v", j+2, err)
+					}
+				}
+				win = append(win, harness.PipeBlock{Txs: txs.Transactions, TS: hist.Blocks[j].TS, Local: hist.Blocks[j].Local})
+			}
+			res, err := r.ExecPipelined(win)
+			for _, br := range res {
+				if len(br.Receipts) > 0 || len(br.Block.Transactions.Transactions) == 0 {
+					rr.Heights = append(rr.Heights, toHeightResult(br))
+				}
+			}
+			if err != nil {
+				return rr, fmt.Errorf("window starting at block %d: %v", i+2, err)
+			}
+		}
+		rr.Dump = dumpDigest(r)
+		return rr, nil
+	}
 	for i, hb := range hist.Blocks {
 		h := uint64(i + 2)
 		if h < fromH || (toH != 0 && h > toH) {
@@ -234,6 +264,8 @@ func replayHistory(dir string, hist *history, restartAt map[uint64]bool, fromH, 
 	return rr, nil
 }
 
+var pipelineWindow int
+
 // det01Replay is the child-process entry: replay a history file, print results as JSON.
 func det01Replay(args []string) int {
 	fs := flag.NewFlagSet("det01-replay", flag.ExitOnError)
@@ -246,6 +278,7 @@ func det01Replay(args []string) int {
 	to := fs.Uint64("toh", 0, "")
 	dumpAt := fs.Uint64("dumpat", 0, "")
 	dumpOut := fs.String("dumpout", "", "")
+	fs.IntVar(&pipelineWindow, "pipeline", 0, "hand blocks to the executor in windows of this size without waiting for commits")
 	fs.Parse(args)
 	b, err := ioutil.ReadFile(*histFile)
 	if err != nil {
@@ -409,6 +442,9 @@ func det01Workload(args []string) int {
 				{name: "perturbed-schedule", env: []string{hooks, fmt.Sprintf("VERIF_HOOK_SEED=%d", rng.Int63()), "GOMAXPROCS=2"}},
 				{name: "restarts-in-process@" + rs, args: []string{"-restarts", rs}},
 				{name: "restart-after-every-block", args: []string{"-restarts", "all"}},
+				// consensus runs ahead of the executor: up to 8 blocks are in the executor's stages at once, and the
+				// commits are slowed down so that the next blocks really run on uncommitted predecessors
+				{name: "pipelined-x8", args: []string{"-pipeline", "8"}, env: []string{"VERIF_HOOKS=ledger.persist.state.begin=sleep:30000:0.7,ledger.persist.chain.begin=sleep:20000:0.5", fmt.Sprintf("VERIF_HOOK_SEED=%d", rng.Int63())}},
 				{name: fmt.Sprintf("restart-new-process@1,%d,%d", split1, split2), procs: [][2]uint64{{1, 1}, {2, split1}, {split1 + 1, split2}, {split2 + 1, 0}}},
 				{name: fmt.Sprintf("repeat-x%d", nrep), repeats: nrep},
 			}
